@@ -56,3 +56,29 @@ theorem Data.get?_set_other (d : Data) (k k' : String) (v : Val) (h : k' ≠ k) 
     rw [List.find?_append]
     cases d.find? (·.1 == k') <;> simp [h1]
 end Edzed
+
+namespace Edzed
+
+theorem Data.has_of_get?_some {d : Data} {k : String} {v : Val} (h : d.get? k = some v) : d.has k = true := by
+  unfold Data.get? at h
+  unfold Data.has
+  cases hf : d.find? (·.1 == k) with
+  | none => simp [hf] at h
+  | some p =>
+    have := List.find?_some hf
+    exact List.any_eq_true.mpr ⟨p, List.mem_of_find?_eq_some hf, this⟩
+
+theorem Data.has_set_of_has (d : Data) (k k' : String) (v : Val) (h : d.has k' = true) :
+    (d.set k v).has k' = true := by
+  unfold Data.has at h ⊢
+  unfold Data.set
+  obtain ⟨p, hp, hk⟩ := List.any_eq_true.mp h
+  split
+  · refine List.any_eq_true.mpr ?_
+    by_cases hpk : p.1 = k
+    · refine ⟨(k, v), List.mem_map.mpr ⟨p, hp, by simp [hpk]⟩, ?_⟩
+      simpa [hpk] using hk
+    · refine ⟨p, List.mem_map.mpr ⟨p, hp, by simp [hpk]⟩, hk⟩
+  · exact List.any_eq_true.mpr ⟨p, List.mem_append_left _ hp, hk⟩
+
+end Edzed
